@@ -73,6 +73,22 @@ CmuxOK(e, res) ==
       pout == PhaseVec(res, e.sk_in)
       B == XpBound(e, e.a, res, 2) + 2 * (1 + N2(e)) * (1 + SkNorm1(e.sk_in))
   IN \A c \in 1..NN(e) : CycDist(pout[c], want[c] % Pow2(ob), Pow2(ob)) <= B
+\* exact form of the CMux when the branches and the result have one layout in the selector's radix:
+\* accumulator = gadget product of the limb-wise difference t - f, plus f aligned on the top limb
+CmuxExactOK(e, res) ==
+  LET ob == OutBits(res)
+      diff == [e.a EXCEPT !.d = [co \in 1..Len(e.a.d) |-> [j \in 1..e.a.size |-> PSub(e.a.d[co][j], e.b.d[co][j])]]]
+      ed == [e EXCEPT !.a = diff]
+      e1 == [e EXCEPT !.rin = e.rin + 1]
+      M == Pow2(KeyBits(e))
+      slack == ToOutUlps(2 * DropSlackKey(e1), KeyBits(e), ob)
+      FCut(co) == LET col == [j \in 1..e.skey |-> IF j <= e.b.size THEN e.b.d[co][j] ELSE PZero(NN(e))]
+                  IN [c \in 1..NN(e) |-> TorusInt(col, e.bkey, c) % M]
+  IN \A co \in 1..(Rk(e) + 1) :
+       LET want == XpBig(ed, co)
+           f == FCut(co)
+       IN \A c \in 1..NN(e) :
+            NearOK(TorusInt(res.d[co], res.b, c), CMod((want[c] + f[c]) % M, M), ob - KeyBits(e), ob, 1, slack)
 AllZero(ct) == \A c \in 1..Len(ct.d) : \A j \in 1..Len(ct.d[c]) : \A i \in 1..Len(ct.d[c][j]) : ct.d[c][j][i] = 0
 GgswXpOK(e, res) ==
   LET ra == e.a.rows
@@ -85,7 +101,8 @@ XpFam(e) == IF e.op \in {"xp", "xp_assign"} THEN "xp" ELSE IF e.op \in {"ggsw_xp
 XpAllOK(e, res) ==
   CASE XpFam(e) = "xp" -> /\ XpPhaseOK(e, e.a, res)
                           /\ (e.a.b = e.bkey /\ KeyBits(e) <= 16) => XpExactOK(e, res)
-    [] XpFam(e) = "cmux" -> CmuxOK(e, res)
+    [] XpFam(e) = "cmux" -> /\ CmuxOK(e, res)
+                            /\ (KeyBits(e) <= 16 /\ res.size = e.a.size /\ e.b.size = e.a.size) => CmuxExactOK(e, res)
     [] OTHER -> GgswXpOK(e, res)
 XpMeaningful(e, res) ==
   CASE XpFam(e) = "xp" -> XpBound(e, e.a, res, 1) <= Pow2(OutBits(res)) \div 16
